@@ -138,9 +138,26 @@ void do_spanner(Ctx<W> &x, std::size_t k) {
 
 template<class W>
 void do_approx(Ctx<W> &x, const std::string &variant, std::size_t k) {
-    typedef typename Ctx<W>::Edge Edge;
+    typedef typename Ctx<W>::Edge Edge; typedef typename Ctx<W>::Graph Graph; typedef typename Ctx<W>::Vertex Vertex;
     std::list<std::list<Edge>> cycles;
     auto wm = get(edge_weight, x.g);
+    if (k >= 1) {
+        // what the algorithm object builds internally, observed through the PARMCB_VERIF accessors on an
+        // identically constructed object (construction is deterministic)
+        typedef typename property_map<Graph, edge_weight_t>::type WM;
+        typedef std::back_insert_iterator<std::list<std::list<Edge>>> It;
+        typedef parmcb::detail::mcb_sva_signed<Graph, WM, It> Exact;
+        parmcb::detail::BaseApproxSpannerAlgorithm<Graph, WM, Exact, false> probe(x.g, wm, get(vertex_index, x.g), k);
+        std::unordered_set<Vertex> un;
+        for (std::size_t v = 0; v < x.n; v++) un.insert(v);
+        std::cout << "order"; for (auto v : un) std::cout << " " << v; std::cout << "\n";
+        std::cout << "scan"; for (auto &e : probe.verif_scan_order()) std::cout << " " << x.id(e); std::cout << "\n";
+        const Graph &sp = probe.verif_spanner();
+        std::cout << "retained";
+        for (auto ep = edges(sp); ep.first != ep.second; ++ep.first) std::cout << " " << x.id(probe.verif_edge_spanner_to_g().at(*ep.first));
+        std::cout << "\n";
+        std::cout << "dropped"; for (auto &e : probe.verif_non_spanner_edges()) std::cout << " " << x.id(e); std::cout << "\n";
+    }
     W ret = W();
     bool threw = false;
     try {
